@@ -1411,6 +1411,176 @@ brk("B107", "cli: files parsed with strict=False",
 """)], {"C19": "R19.7|"})
 
 
+# applicator truth tables (sa/rules/applic.py)
+brk("B110", "anyOf: error after the loop whether or not a branch matched",
+    [(KV, """        all_errors.extend(errs)
+    else:
+        yield ValidationError(
+            "%r is not valid under any of the given schemas" % (instance,),
+            context=all_errors,
+        )
+
+
+def oneOf""", """        all_errors.extend(errs)
+    if all_errors:
+        yield ValidationError(
+            "%r is not valid under any of the given schemas" % (instance,),
+            context=all_errors,
+        )
+
+
+def oneOf""")], {"C01": "R1.12|"})
+
+brk("B111", "oneOf: later matches counted only when they do NOT match",
+    [(KV, """    more_valid = [s for i, s in subschemas if validator.is_valid(instance, s)]""",
+      """    more_valid = [s for i, s in subschemas if not validator.is_valid(instance, s)]""")], {"C01": "R1.12|"})
+
+brk("B112", "not: inverted",
+    [(KV, """    if validator.is_valid(instance, not_schema):""", """    if not validator.is_valid(instance, not_schema):""")], {"C01": "R1.12|"})
+
+brk("B113", "contains: every element must match",
+    [(KV, """    if not any(validator.is_valid(element, contains) for element in instance):""",
+      """    if not all(validator.is_valid(element, contains) for element in instance):""")], {"C01": "R1.12|"})
+
+brk("B114", "if: else applied whenever then is absent",
+    [(KV, """    elif u"else" in schema:""", """    if u"then" not in schema and u"else" in schema:""")], {"C01": "R1.12|"})
+
+brk("B115", "dependencies: stops at the first absent trigger",
+    [(KV, """        if property not in instance:
+            continue
+
+        if validator.is_type(dependency, "array"):""", """        if property not in instance:
+            break
+
+        if validator.is_type(dependency, "array"):""")], {"C01": "R1.12|", "C05": "R5."})
+
+brk("B116", "additionalItems false: off by one",
+    [(KV, """    elif not aI and len(instance) > len(schema.get("items", [])):""",
+      """    elif not aI and len(instance) >= len(schema.get("items", [])):""")], {"C01": "R1.12|"})
+
+brk("B117", "additionalProperties false: error even without extras",
+    [(KV, """    elif not aP and extras:""", """    elif not aP:""")], {"C01": "R1.12|"})
+
+brk("B118", "propertyNames: only the first name is checked",
+    [(KV, """            schema=propertyNames,
+        ):
+            yield error
+""", """            schema=propertyNames,
+        ):
+            yield error
+        break
+""")], {"C01": "R1.12|", "C05": "R5."})
+
+brk("B119", "type (Draft 3): a matching schema member does not end the search",
+    [(LV, """            if not errors:
+                return
+            all_errors.extend(errors)""", """            if not errors:
+                continue
+            all_errors.extend(errors)""")], {"C01": "R1.12|"})
+
+brk("B120", "anyOf: context keeps only the last branch's errors",
+    [(KV, """        if not errs:
+            break
+        all_errors.extend(errs)
+    else:
+        yield ValidationError(
+            "%r is not valid under any of the given schemas" % (instance,),
+            context=all_errors,
+        )
+
+
+def oneOf""", """        if not errs:
+            break
+        all_errors = errs
+    else:
+        yield ValidationError(
+            "%r is not valid under any of the given schemas" % (instance,),
+            context=all_errors,
+        )
+
+
+def oneOf""")], {"C05": "R5.8|"})
+
+brk("B121", "allOf: stops after the first failing branch",
+    [(KV, """    for index, subschema in enumerate(allOf):
+        for error in validator.descend(instance, subschema, schema_path=index):
+            yield error
+""", """    for index, subschema in enumerate(allOf):
+        errors = list(validator.descend(instance, subschema, schema_path=index))
+        for error in errors:
+            yield error
+        if errors:
+            return
+""")], {"C05": "R5."})
+
+brk("B122", "items (array form): schema_path is the position among the remaining items",
+    [(KV, """        for (index, item), subschema in zip(enumerate(instance), items):
+            for error in validator.descend(
+                item, subschema, path=index, schema_path=index,
+            ):
+                yield error
+    else:
+        for index, item in enumerate(instance):
+            for error in validator.descend(item, items, path=index):""", """        for (index, item), subschema in zip(enumerate(instance), items):
+            for error in validator.descend(
+                item, subschema, path=index, schema_path=len(items) - index - 1,
+            ):
+                yield error
+    else:
+        for index, item in enumerate(instance):
+            for error in validator.descend(item, items, path=index):""")], {"C06": "R6."})
+
+brk("B123", "dependencies (Draft 3): string form tested against the trigger",
+    [(LV, """            if dependency not in instance:
+                yield ValidationError(""", """            if property not in instance:
+                yield ValidationError(""")], {"C01": "R1.12|"})
+
+brk("B124", "required: reports only the first missing member",
+    [(KV, """        if property not in instance:
+            yield ValidationError("%r is a required property" % property)
+""", """        if property not in instance:
+            yield ValidationError("%r is a required property" % property)
+            return
+""")], {"C05": "R5."})
+
+keep("P46", "anyOf/oneOf with a found flag instead of for-else",
+     [(KV, """        errs = list(validator.descend(instance, subschema, schema_path=index))
+        if not errs:
+            break
+        all_errors.extend(errs)
+    else:
+        yield ValidationError(
+            "%r is not valid under any of the given schemas" % (instance,),
+            context=all_errors,
+        )
+
+
+def oneOf""", """        errs = list(validator.descend(instance, subschema, schema_path=index))
+        if not errs:
+            return
+        all_errors += errs
+    yield ValidationError(
+        "%r is not valid under any of the given schemas" % (instance,),
+        context=all_errors,
+    )
+
+
+def oneOf""")], None)
+
+keep("P47", "contains via a loop with early return",
+     [(KV, """    if not any(validator.is_valid(element, contains) for element in instance):
+        yield ValidationError(
+            "None of %r are valid under the given schema" % (instance,)
+        )
+""", """    for element in instance:
+        if validator.is_valid(element, contains):
+            return
+    yield ValidationError(
+        "None of %r are valid under the given schema" % (instance,)
+    )
+""")], None)
+
+
 # whole-tree transformation: every local and every positionally-passed parameter renamed, plain top-level functions
 # reordered, all eight modules re-emitted through ast.unparse (every line number and the whole layout change).
 # The repository's suite passes on the transformed tree (checked when the transformation was written).
